@@ -32,9 +32,23 @@ def run(ctx: Ctx):
     user = f.params[0]
     cfg = cfg_of(f.node)
     gv = GuardView(cfg)
-    sites = [s for s in result_sites(f) if isinstance(s.arg("solution"), ast.Name)]
-    ctx.require(len(sites) == 1 and isinstance(sites[0].arg("solution"), ast.Name) and isinstance(sites[0].arg("objective"), ast.Name), "main Result(assignment, total_cost, ..) publication not found")
+    all_sites = result_sites(f)
+    accumulated = {n.target.id for n in own_nodes(f.node) if isinstance(n, ast.AugAssign) and isinstance(n.target, ast.Name)}
+    sites = [s for s in all_sites if isinstance(s.arg("solution"), ast.Name) and isinstance(s.arg("objective"), ast.Name) and s.arg("objective").id in accumulated]
+    ctx.require(len(sites) == 1, "main Result(assignment, total_cost, ..) publication not found")
     asg, obj = sites[0].arg("solution").id, sites[0].arg("objective").id
+    # every other publication is the empty answer for an empty matrix: an assignment is published by the one site
+    # behind the augmenting search (a shortcut that picks entries by itself has its own idea of min / max and of ties)
+    for k_, s_ in enumerate(all_sites):
+        if s_ is sites[0]:
+            continue
+        sol_ = s_.arg("solution")
+        empty = isinstance(sol_, (ast.List, ast.Tuple)) and not sol_.elts
+        if isinstance(sol_, ast.BinOp) and isinstance(sol_.op, ast.Mult) and ast.unparse(sol_.left) == "[-1]":
+            # all rows unassigned, objective 0: the answer for a matrix without rows or without columns
+            at_ = gv.guard_atoms(s_.node, stable_only=False)
+            empty = ast.unparse(s_.arg("objective")) in ("0.0", "0") and any(user in a and ("F:" in a or "OR(" in a or "0 ==" in a) for a in at_)
+        ctx.ob("C10-O1", "R14 GATE", f, f"Result#{k_}: besides the read-out of the match table only the empty assignment is published", empty, f"`{ast.unparse(s_.call)[:70]}`: an assignment the augmenting search did not produce - it has to get minimize / maximize, rectangular shapes and the objective right on its own", node=s_.call)
 
     # O1 provenance
     acc = [n for n in own_nodes(f.node) if isinstance(n, ast.AugAssign) and isinstance(n.target, ast.Name) and n.target.id == obj]
@@ -309,7 +323,13 @@ def _v_row_column_reduction_presolve(tree):
     g.body[k[0]:k[0]] = M.stmts("for i in range(n_rows):\n    row_min = min(matrix[i])\n    if row_min:\n        for j in range(n_cols):\n            matrix[i][j] -= row_min")
 
 
+def _v_single_line_fast_path(tree):
+    g = M.find_func(tree, "solve_hungarian")
+    M.insert(g, "matrix = [[0.0] * n", "if n_cols == 1:\n    column = [r[0] for r in cost_matrix]\n    i = column.index(min(column))\n    assignment = [-1] * n_rows\n    assignment[i] = 0\n    return Result(assignment, float(column[i]), 1, n_rows)")
+
+
 VARIANTS = [
+    M.Variant("a one-column matrix is answered by picking the smallest entry, whatever `minimize` says (seed C10-T)", HU, _v_single_line_fast_path, "C10-O1"),
     M.Variant("row reduction presolve over the real cells only (seed C10-Q)", HU, _v_row_column_reduction_presolve, "C10-O3"),
 
     M.Variant("the search leaves for a free padding column before the dual update of that step (seed C10-O)", HU, _v_skip_update_on_padding_column, "C10-O4"),
